@@ -234,7 +234,7 @@ _TRANS = {
     "C11": (["Gws.Props.TransHandshake"], ["TransEquiv.HttpHeaderContainsToken_eq", "TransEquiv.GetIntersectionElem_eq", "TransEquiv.InCollection_eq",
                                           "TransEquiv.checkHeaders_eq", "TransEquiv.getSubProtocol_eq", "TransEquiv.request_headers_eq", "TransEquiv.clientHandshake_eq_translated"]),
     "C05": (["Gws.Props.TransFrame", "Gws.Props.TransClose", "Gws.Props.TransWriter", "Gws.Props.TransCompress", "Gws.Props.TransFile", "Gws.Props.TransSend", "Gws.Props.TransFW", "Gws.Props.TransReadLoop", "Gws.Props.TransPropsFile"],
-            ["TransProps.streamed_message_frames", "TransEquiv.RL.splitReader_eq", "TransEquiv.RL.WriteTo_eq", "TransEquiv.RL.uncompressed_WriteFile_translated", "TransEquiv.FW.shouldCall_eq", "TransEquiv.FW.write_eq", "TransEquiv.FW.Write_eq", "TransEquiv.FW.Flush_eq", "TransEquiv.FW.compressFile_translated", "TransEquiv.SetLength_eq", "TransEquiv.GenerateHeader_eq", "TransEquiv.local_close_body_eq", "TransEquiv.genFrame_eq", "TransEquiv.stripTail_eq", "TransEquiv.compressData_eq",
+            ["TransProps.streamed_message_frames", "TransProps.streamed_compressed_message_frames", "TransEquiv.RL.splitReader_eq", "TransEquiv.RL.WriteTo_eq", "TransEquiv.RL.uncompressed_WriteFile_translated", "TransEquiv.FW.shouldCall_eq", "TransEquiv.FW.write_eq", "TransEquiv.FW.Write_eq", "TransEquiv.FW.Flush_eq", "TransEquiv.FW.compressFile_translated", "TransEquiv.SetLength_eq", "TransEquiv.GenerateHeader_eq", "TransEquiv.local_close_body_eq", "TransEquiv.genFrame_eq", "TransEquiv.stripTail_eq", "TransEquiv.compressData_eq",
              "TransEquiv.flush_stripTail_eq", "TransEquiv.doWriteFile_frame_eq", "TransEquiv.doWrite_head_eq", "TransEquiv.broadcast_gate_eq"]),
     "C06": (["Gws.Props.TransClose", "Gws.Props.TransSend"], _TC + ["TransEquiv.doWrite_head_eq", "TransEquiv.broadcast_gate_eq"]),
     "C16": (["Gws.Props.TransClose", "Gws.Props.TransEmit"], ["TransEquiv.CheckEncoding_eq", "TransEquiv.emitClose_body_eq", "TransEquiv.emitMessage_eq"]),
